@@ -1063,7 +1063,7 @@ class TFLiteSupportedOperators:
         perm = op.inputs[1]
 
         # WxC -> CxW
-        valid = len(ifm_shape) == 2
+        valid = len(ifm_shape) == 2 and perm.values[0] == 1 and perm.values[1] == 0
 
         # HxWxC -> WxHxC
         if not valid and perm.shape == [3]:
